@@ -1,7 +1,8 @@
 """C12 — validate_calcs reports exactly the stored results that disagree:
 .xlsx files with consistent stored results, each formula cell's stored result
 perturbed in turn, against the property's statement (and the loop model of
-coq/Model/Validate.v)."""
+coq/Model/Validate.v); plus workbooks whose formula cells the checked outputs
+reach only through whole-column / whole-row references (oracle only)."""
 import contextlib
 import io
 import os
@@ -383,6 +384,241 @@ def magnitude_stream(ctx, ExcelCompiler, batch):
                     ctx.violation(case, "unexpected exception / not-implemented entries", impl=repr(rep)[:300])
 
 
+# ------------------------------------------------------------------ formula cells behind unbounded ranges
+def write_xlsx_cells(sheets, stored, path):
+    """sheets: [(title, {coordinate: constant or '=formula'})] -> .xlsx at path, with the stored results
+    {'title!coordinate': value} injected into the sheet XML (openpyxl does not write cached values)."""
+    import re
+    import zipfile
+    import openpyxl
+    owb = openpyxl.Workbook()
+    for k, (title, cells) in enumerate(sheets):
+        ws = owb.active if k == 0 else owb.create_sheet(title)
+        ws.title = title
+        for xy, v in cells.items():
+            ws[xy] = v
+    owb.save(path)
+    tmp = path + '.tmp'
+    with zipfile.ZipFile(path) as zin, zipfile.ZipFile(tmp, 'w', zipfile.ZIP_DEFLATED) as zout:
+        for item in zin.infolist():
+            data = zin.read(item.filename)
+            m = re.fullmatch(r'xl/worksheets/sheet(\d+)\.xml', item.filename)
+            if m:
+                title = sheets[int(m.group(1)) - 1][0]
+                xml = data.decode('utf8')
+                for addr, v in stored.items():
+                    sh, xy = addr.split('!')
+                    if sh != title or v is None:
+                        continue
+                    if isinstance(v, bool):
+                        typ, body = 'b', '1' if v else '0'
+                    elif isinstance(v, (int, float)):
+                        typ, body = None, repr(v)
+                    else:
+                        typ = 'e' if str(v).startswith('#') else 'str'
+                        body = str(v).replace('&', '&amp;').replace('<', '&lt;').replace('>', '&gt;')
+                    pat = re.compile(r'<c r="%s"([^>]*)>(<f>.*?</f>)(?:<v ?/>|<v></v>)' % xy)
+                    mm = pat.search(xml)
+                    if not mm:
+                        raise RuntimeError(f'cannot inject stored value for {addr}')
+                    attrs = re.sub(r'\s+t="[^"]*"', '', mm.group(1))
+                    t = f' t="{typ}"' if typ else ''
+                    xml = xml[:mm.start()] + f'<c r="{xy}"{attrs}{t}>{mm.group(2)}<v>{body}</v></c>' \
+                        + xml[mm.end() + len('</c>'):]
+                data = xml.encode('utf8')
+            zout.writestr(item, data)
+    os.replace(tmp, path)
+
+
+def unbounded_workbook(rng):
+    """Formula cells that the checked outputs reach ONLY through a whole-column / whole-row reference.  A data sheet
+    (the consumers' own sheet or another one) with columns A and B of 3-6 rows mixing integer inputs and formula
+    cells over earlier rows (=A1*3, =A2+B1, =SUM(A1:A2), =-A1), and a row (below the block) mixing inputs and
+    formula cells; 2-4 consumer cells in column J (rows 1-4) of sheet S: =SUM(A:A), =SUM(A:B), =MAX(B:B)+1,
+    =SUM(7:7)&"!", =COUNT(A:A)*A1, =SUM(A:A)+SUM(B:B), chains =J1*2, =J1+J3.
+    Returns (sheets, deps): sheets for write_xlsx_cells, deps {formula address: set of formula/input addresses it
+    reads directly} (an unbounded reference reads every written cell of its columns / rows)."""
+    data = rng.choice(['S', 'S', 'T'])
+    cells = {'S': {}, 'T': {}}
+    deps = {}
+    m = rng.randrange(3, 7)
+    row = max(m, 4) + 2                        # the row of the whole-row reference; no consumer lives there
+
+    def q(ref, home):
+        return ref if home == data and rng.random() < 0.7 else f'{data}!{ref}'
+
+    def put(xy, text, reads):
+        cells[data][xy] = text
+        deps[f'{data}!{xy}'] = {f'{data}!{r}' for r in reads}
+
+    nform = 0
+    for c in 'AB':
+        for r in range(1, m + 1 if c == 'A' else rng.randrange(2, m + 1) + 1):
+            earlier = [f'{c}{i}' for i in range(1, r)] + ([f'A{i}' for i in range(1, r + 1)] if c == 'B' else [])
+            if r == 1 and c == 'A' or not earlier or rng.random() < 0.4:
+                cells[data][f'{c}{r}'] = rng.choice([2, 3, 5, 7, -4, 10, 12, 100])
+                continue
+            nform += 1
+            k = rng.randrange(5)
+            a, b = rng.choice(earlier), rng.choice(earlier)
+            if k == 0:
+                put(f'{c}{r}', f'={a}*3', [a])
+            elif k == 1:
+                put(f'{c}{r}', f'={a}+{b}', [a, b])
+            elif k == 2 and r > 2:
+                put(f'{c}{r}', f'=SUM({c}1:{c}{r - 1})', [f'{c}{i}' for i in range(1, r)])
+            elif k == 3:
+                put(f'{c}{r}', f'=-{a}', [a])
+            else:
+                put(f'{c}{r}', f'={a}+1', [a])
+    if nform == 0:
+        put(f'A{m}', '=A1*3', ['A1'])
+    for c in 'DEF':
+        if rng.random() < 0.5:
+            a = rng.choice(['A1', 'A2', 'B1'])
+            put(f'{c}{row}', rng.choice([f'={a}+1', f'={a}*2']), [a])
+        elif rng.random() < 0.7:
+            cells[data][f'{c}{row}'] = rng.choice([10, 20, 3])
+    if not any(f'{c}{row}' in cells[data] for c in 'DEF'):
+        put(f'E{row}', '=A1+1', ['A1'])
+
+    def members(pred):
+        return {f'{data}!{xy}' for xy in cells[data] if pred(xy)}
+
+    def col(xy):
+        return xy.rstrip('0123456789')
+
+    cons = []
+    for r in range(1, rng.randrange(2, 5) + 1):
+        k = rng.randrange(9) if r > 1 else rng.randrange(7)
+        xy = f'J{r}'
+        if k == 0:
+            f, reads = f'=SUM({q("A:A", "S")})', members(lambda x: col(x) == 'A')
+        elif k == 1:
+            f, reads = f'=SUM({q("A:B", "S")})', members(lambda x: col(x) in 'AB')
+        elif k == 2:
+            f, reads = f'=MAX({q("$B:$B", "S")})+1', members(lambda x: col(x) == 'B')
+        elif k == 3:
+            f, reads = f'=SUM({q(f"{row}:{row}", "S")})&"!"', members(lambda x: x[len(col(x)):] == str(row))
+        elif k == 4:
+            f, reads = (f'=COUNT({q("A:A", "S")})*{q("A1", "S")}', members(lambda x: col(x) == 'A'))
+        elif k == 5:
+            f, reads = (f'=SUM({q("A:A", "S")})+SUM({q("B:B", "S")})', members(lambda x: col(x) in 'AB'))
+        elif k == 6:
+            f, reads = (f'=SUM({q("B:B", "S")},{q(f"${row}:${row}", "S")})',
+                        members(lambda x: col(x) == 'B' or x[len(col(x)):] == str(row)))
+        elif k == 7:
+            f, reads = f'={rng.choice(cons)}*2', None
+        else:
+            f, reads = f'={rng.choice(cons)}+{cons[0]}', None
+        cells['S'][xy] = f
+        if reads is None:
+            reads = {'S!' + t for t in re_cells(f)}
+        deps[f'S!{xy}'] = set(reads)
+        cons.append(xy)
+    sheets = [('S', cells['S'])] + ([('T', cells['T'])] if data == 'T' else [])
+    return sheets, deps
+
+
+def re_cells(formula):
+    import re
+    return re.findall(r'[A-Z]+[0-9]+', formula)
+
+
+def unbounded_stream(ctx, ExcelCompiler):
+    """validate_calcs with explicit output_addrs on workbooks whose formula cells are reached from the outputs only
+    through whole-column / whole-row references: consistent file -> empty report; each formula cell's stored result
+    altered in turn -> the altered cell is named with (stored, recomputed), everything else named depends on it, no
+    exception entries.  Oracle only (the loop model has no unbounded references)."""
+    rng = ctx.rng
+    ctx.extra['rule'] += (
+        "; unbounded stream: workbooks (1-2 sheets) whose columns A/B and one row mix integer inputs and formula "
+        "cells, read by 2-4 consumer cells through whole-column / whole-row references only (SUM(A:A), SUM(A:B), "
+        "MAX($B:$B), SUM(7:7), COUNT(A:A), chains), consistent stored results, then each formula cell's stored result "
+        "altered (number, text, logical, error value) x tolerance None / 0.001 / 1 x explicit output_addrs = one or two "
+        "consumers from which the altered cell is reachable (sometimes all formulas)")
+    for k in range(ctx.n(40, 400)):
+        sheets, deps = unbounded_workbook(rng)
+        desc = [[t, sorted(c.items())] for t, c in sheets]
+        formulas = sorted(deps)
+        anc = {}
+        for f in formulas:
+            out, todo = set(), list(deps[f])
+            while todo:
+                d = todo.pop()
+                if d not in out:
+                    out.add(d)
+                    todo.extend(deps.get(d, ()))
+            anc[f] = out
+        consumers = [f for f in formulas if f.startswith('S!J')]
+        path = os.path.join(ctx.work, f'ub{k}.xlsx')
+        write_xlsx_cells(sheets, {}, path)
+        ref = ExcelCompiler(filename=path)
+        try:
+            good = {f: ref.evaluate(f) for f in formulas}
+        except Exception as exc:      # noqa: BLE001
+            ctx.broke('harness: unbounded workbook does not evaluate', repr((desc, exc)))
+            continue
+        write_xlsx_cells(sheets, good, path)
+        for tol in (None, 0.001):
+            for outs in (None, [rng.choice(consumers)], consumers):
+                comp = ExcelCompiler(filename=path)
+                case = dict(call='validate', workbook=desc, args=[outs, tol], perturbed=None, stream='unbounded')
+                try:
+                    rep = quiet(comp.validate_calcs, output_addrs=outs, tolerance=tol)
+                except Exception as exc:      # noqa: BLE001
+                    ctx.violation(case, f"validate_calcs raises {type(exc).__name__}: {exc}"[:200])
+                    continue
+                ctx.count(('ub-ok', k, tol, repr(outs)), kind='unbounded:consistent')
+                if rep != {}:
+                    ctx.violation(case, "non-empty report on a consistent workbook", impl=repr(rep)[:300], expected={})
+        for p in formulas:
+            v = good[p]
+            reach = [c for c in consumers if c == p or p in anc[c]]
+            for tol in (None, 0.001, 1):
+                t = tol if tol is not None else 0
+                if isinstance(v, bool) or not isinstance(v, (int, float)):
+                    perts = [('text', 'zz' if v != 'zz' else 'yy'), ('number', 12345), ('error', '#N/A')]
+                else:
+                    perts = [('2tol', v + 2 * t + (1 if tol is None else 0)), ('plus1', v + 1 + t), ('text', 'zz'),
+                             ('error', '#DIV/0!'), ('logical', True if v not in (0, 1) else 'yes')]
+                kind, v2 = rng.choice(perts)
+                altered = dict(good)
+                altered[p] = v2
+                write_xlsx_cells(sheets, altered, path)
+                if reach:
+                    outs = rng.choice([[rng.choice(reach)], [rng.choice(reach)], reach, list(reversed(consumers)), None])
+                else:
+                    outs = rng.choice([None, [p]])      # a data cell no consumer reads
+                comp = ExcelCompiler(filename=path)
+                case = dict(call='validate', workbook=desc, args=[outs, tol], perturbed=[p, v, v2, kind],
+                            stream='unbounded')
+                try:
+                    rep = quiet(comp.validate_calcs, output_addrs=outs, tolerance=tol)
+                except Exception as exc:      # noqa: BLE001
+                    ctx.violation(case, f"validate_calcs raises {type(exc).__name__}: {exc}"[:200])
+                    continue
+                ctx.count(('ub', k, p, kind, tol, repr(outs)),
+                          kind=f'unbounded:perturbed-{kind}:' + ('all' if outs is None else 'explicit-outputs')
+                          + (':behind-unbounded' if not p.startswith('S!J') else ''),
+                          sample=dict(case, report=repr(rep)[:200]))
+                mism = rep.get('mismatch', {})
+                if p not in mism:
+                    ctx.violation(case, "the altered cell is not reported as a mismatch", impl=repr(rep)[:300],
+                                  expected=p)
+                else:
+                    mm = mism[p]
+                    if canon(mm.original) != canon(v2) or canon(mm.calced) != canon(v):
+                        ctx.violation(case, "the mismatch does not carry the stored and the recomputed value",
+                                      impl=[canon(mm.original), canon(mm.calced)], expected=[canon(v2), canon(v)])
+                for other in mism:
+                    if other != p and p not in anc.get(other, ()):
+                        ctx.violation(case, f"{other} is reported but does not depend on the altered cell",
+                                      impl=repr(rep)[:300])
+                if set(rep) - {'mismatch'}:
+                    ctx.violation(case, "unexpected exception / not-implemented entries", impl=repr(rep)[:300])
+
+
 def run(ctx):
     ensure_impl_on_path()
     from pycel import ExcelCompiler
@@ -497,6 +733,7 @@ def run(ctx):
         except Exception as exc:      # noqa: BLE001
             ctx.broke('harness: correspondence-only stream failed', repr(exc))
     magnitude_stream(ctx, ExcelCompiler, batch)
+    unbounded_stream(ctx, ExcelCompiler)
     if ctx.model:
         compare(ctx, batch)
     close_enough_leg(ctx)
